@@ -424,6 +424,10 @@ func (fc *funcContext) translateExpr(expr ast.Expr) *expression {
 				}
 				if v := fc.pkgCtx.Types[e.Y].Value; v != nil {
 					i, _ := constant.Uint64Val(constant.ToInt(v))
+					if i >= 32 && e.Op == token.SHR && !isUnsigned(basic) {
+						// An arithmetic right shift by the width or more fills with the sign bit.
+						return fc.fixNumber(fc.formatParenExpr("%e >> 31", e.X), basic)
+					}
 					if i >= 32 {
 						return fc.formatExpr("0")
 					}
